@@ -305,7 +305,7 @@ def main(argv=None):
 
     t0 = time.time()
     total = a.examples or mod.SIZES[tier]
-    nshards = a.shards or min(16, os.cpu_count() or 1, max(1, total // 20))
+    nshards = a.shards or min(16, getattr(mod, "MAX_SHARDS", 16), os.cpu_count() or 1, max(1, total // 20))
     budget = a.budget or (float(os.environ.get("VERIF_BUDGET_S", "0")) or (240.0 if tier == "quick" else 3000.0))
     violations = 0
     printed = []
